@@ -729,6 +729,159 @@ theorem winner_costs_true (statsOf : Nat → CStats) (mts : Option Nat) (log : L
   have hid' : b.trial.tree = some id := hid
   exact ⟨id, by simp [HState.tree, hb, hid'], hid', hf, hw, hs⟩
 
+/-! ## 5b. end to end: a search built from `ComputeScore` returns its best trial with that
+        trial's true costs -/
+
+/-- the trial as the driver side receives it from a worker (`on_trial_error` ≠ 'raise'); the
+    fallback record is never used under the hypotheses of the theorems below -/
+def workerTrial (ops : TreeOps τ) (idOf : τ → Nat) (ws : List Wrapper) (obj : Objective τ)
+    (postEnsure : Bool) (onErr : OnErr) (raw : Raw τ) : Trial :=
+  match computeScore ops ws obj postEnsure onErr raw with
+  | none => { score := none, flops := none, write := none, size := none, tree := none }
+  | some r =>
+    match toTrial idOf r with
+    | none => { score := none, flops := none, write := none, size := none, tree := none }
+    | some t => t
+
+theorem workerTrial_good (ops : TreeOps τ) (idOf : τ → Nat) (statsOf : Nat → CStats)
+    (hstats : ∀ t, ops.stats t = statsOf (idOf t)) (ws : List Wrapper) (obj : Objective τ)
+    (postEnsure : Bool) (onErr : OnErr) (raw : Raw τ) (hne : onErr ≠ .raise)
+    (hguard : postEnsure = true ∨ obj.ensures = true ∨ ws ≠ []) :
+    TrueCosts statsOf (workerTrial ops idOf ws obj postEnsure onErr raw) ∧
+      (slt (workerTrial ops idOf ws obj postEnsure onErr raw).score none = true →
+        (workerTrial ops idOf ws obj postEnsure onErr raw).tree.isSome = true) := by
+  obtain ⟨r, hr, _⟩ := computeScore_total ops ws obj postEnsure onErr raw hne
+  have htrue := record_costs_true_partial ops ws obj postEnsure onErr raw r hguard hr
+  obtain ⟨t, ht, hsc, hfig⟩ := toTrial_of_trueRecord ops idOf r htrue
+  have hw : workerTrial ops idOf ws obj postEnsure onErr raw = t := by
+    unfold workerTrial; rw [hr]; simp only; rw [ht]
+  rw [hw]
+  constructor
+  · intro id hid
+    cases htr : r.tree with
+    | none =>
+      have : t.tree = none := by
+        unfold toTrial at ht
+        split at ht
+        · simp only [Option.some.injEq] at ht; subst ht; simp [htr]
+        · cases ht
+      rw [this] at hid; cases hid
+    | some tr =>
+      obtain ⟨h0, h1, h2, h3⟩ := hfig tr htr
+      rw [h0] at hid
+      simp only [Option.some.injEq] at hid
+      subst hid
+      rw [← hstats]
+      exact ⟨h1, h2, h3⟩
+  · intro hfin
+    rw [hsc] at hfin
+    have := finite_score_has_tree ops ws obj postEnsure onErr raw r hr hfin
+    obtain ⟨tr, htr⟩ := Option.isSome_iff_exists.1 this
+    rw [(hfig tr htr).1]; rfl
+
+/-- an environment whose trial results all come out of `ComputeScore` -/
+def workerEnv (ops : TreeOps τ) (idOf : τ → Nat) (ws : List Wrapper) (obj : Objective τ)
+    (postEnsure : Bool) (onErr : OnErr) (getSetting : HState → Setting)
+    (raws : Nat → Setting → Raw τ) : Env :=
+  { getSetting := getSetting,
+    trialFn := fun k s => workerTrial ops idOf ws obj postEnsure onErr (raws k s) }
+
+/-- **hyper_search_correct (serial)** — for every sampler, every outcome of the path functions
+    (trees, `BadTrial`, exceptions), every behaviour of the post-processing steps, every option set
+    and objective under the guard, every stop behaviour: after a serial search on a fresh optimizer
+    the score of `self.best` is the minimum of all recorded scores, at most `max_repeats` trials
+    were run, and if any trial succeeded `search` returns a tree whose `contract_stats()` are
+    exactly the `flops/write/size` stored in `self.best`. -/
+theorem hyper_search_correct_serial (ops : TreeOps τ) (idOf : τ → Nat) (statsOf : Nat → CStats)
+    (hstats : ∀ t, ops.stats t = statsOf (idOf t)) (ws : List Wrapper) (obj : Objective τ)
+    (postEnsure : Bool) (onErr : OnErr) (hne : onErr ≠ .raise)
+    (hguard : postEnsure = true ∨ obj.ensures = true ∨ ws ≠ [])
+    (getSetting : HState → Setting) (raws : Nat → Setting → Raw τ) (mts : Option Nat)
+    (maxRepeats : Nat) (stop : StopRule) :
+    let st := searchSerial (workerEnv ops idOf ws obj postEnsure onErr getSetting raws) maxRepeats
+      stop (HState.init mts)
+    st.curBest = minScore st.scores ∧ st.scores.length ≤ maxRepeats ∧
+      ∀ b, st.best = some b → ∃ id, st.tree = some id ∧
+        b.trial.flops = some (statsOf id).flops ∧ b.trial.write = some (statsOf id).write ∧
+        b.trial.size = some (statsOf id).size := by
+  intro st
+  obtain ⟨log, heq, hlen, hres, _⟩ := serial_search_spec
+    (workerEnv ops idOf ws obj postEnsure onErr getSetting raws) maxRepeats stop (HState.init mts)
+  have hbest : st.best = (runLog (HState.init mts) log).best := by
+    change (searchSerial _ maxRepeats stop (HState.init mts)).best = _; rw [heq]
+  have hscores : st.scores = log.map (·.2.score) := by
+    change (searchSerial _ maxRepeats stop (HState.init mts)).scores = _
+    rw [heq]
+    have := runLog_scores (HState.init mts) log
+    simpa [HState.init] using this
+  have hcur : st.curBest = (runLog (HState.init mts) log).curBest := by
+    unfold HState.curBest; rw [hbest]
+  have htree : st.tree = (runLog (HState.init mts) log).tree := by
+    unfold HState.tree; rw [hbest]
+  have hgood : ∀ e ∈ log, TrueCosts statsOf e.2 ∧
+      (slt e.2.score none = true → e.2.tree.isSome = true) := by
+    intro e he
+    obtain ⟨i, hi, rfl⟩ := List.getElem_of_mem he
+    rw [hres i hi]
+    exact workerTrial_good ops idOf statsOf hstats ws obj postEnsure onErr _ hne hguard
+  refine ⟨?_, ?_, ?_⟩
+  · rw [hcur, hscores]; exact (best_is_argmin mts log).1
+  · rw [hscores]; simpa using hlen
+  · intro b hb
+    rw [hbest] at hb
+    obtain ⟨id, h1, _, h3, h4, h5⟩ := winner_costs_true statsOf mts log
+      (fun e he => (hgood e he).1) (fun e he => (hgood e he).2) b hb
+    exact ⟨id, by rw [htree]; exact h1, h3, h4, h5⟩
+
+/-- **hyper_search_correct (parallel)** — the same for a search on a pool, for *every* sequence of
+    completion choices (which pending future finishes next) and every `pre_dispatch` window. -/
+theorem hyper_search_correct_parallel (ops : TreeOps τ) (idOf : τ → Nat) (statsOf : Nat → CStats)
+    (hstats : ∀ t, ops.stats t = statsOf (idOf t)) (ws : List Wrapper) (obj : Objective τ)
+    (postEnsure : Bool) (onErr : OnErr) (hne : onErr ≠ .raise)
+    (hguard : postEnsure = true ∨ obj.ensures = true ∨ ws ≠ [])
+    (getSetting : HState → Setting) (raws : Nat → Setting → Raw τ) (mts : Option Nat)
+    (pre maxRepeats : Nat) (stop : StopRule) (choices : List Nat) :
+    let st := (searchParallel (workerEnv ops idOf ws obj postEnsure onErr getSetting raws) pre
+      maxRepeats stop choices (HState.init mts)).h
+    st.curBest = minScore st.scores ∧ st.scores.length ≤ maxRepeats ∧
+      ∀ b, st.best = some b → ∃ id, st.tree = some id ∧
+        b.trial.flops = some (statsOf id).flops ∧ b.trial.write = some (statsOf id).write ∧
+        b.trial.size = some (statsOf id).size := by
+  intro st
+  obtain ⟨plog, heq, _, _, _, _, hres, _⟩ := parallel_search_spec
+    (workerEnv ops idOf ws obj postEnsure onErr getSetting raws) pre maxRepeats stop choices
+    (HState.init mts)
+  have hbud := (trial_budget_parallel
+    (workerEnv ops idOf ws obj postEnsure onErr getSetting raws) pre maxRepeats stop choices
+    (HState.init mts)).1
+  have hbest : st.best = (runLog (HState.init mts) (plog.map (·.2))).best := by
+    change (searchParallel _ pre maxRepeats stop choices (HState.init mts)).h.best = _; rw [heq]
+  have hscores : st.scores = (plog.map (·.2)).map (·.2.score) := by
+    change (searchParallel _ pre maxRepeats stop choices (HState.init mts)).h.scores = _
+    rw [heq]
+    have := runLog_scores (HState.init mts) (plog.map (·.2))
+    simpa [HState.init] using this
+  have hcur : st.curBest = (runLog (HState.init mts) (plog.map (·.2))).curBest := by
+    unfold HState.curBest; rw [hbest]
+  have htree : st.tree = (runLog (HState.init mts) (plog.map (·.2))).tree := by
+    unfold HState.tree; rw [hbest]
+  have hgood : ∀ e ∈ plog.map (·.2), TrueCosts statsOf e.2 ∧
+      (slt e.2.score none = true → e.2.tree.isSome = true) := by
+    intro e he
+    obtain ⟨pe, hpe, rfl⟩ := List.mem_map.1 he
+    rw [hres pe hpe]
+    exact workerTrial_good ops idOf statsOf hstats ws obj postEnsure onErr _ hne hguard
+  refine ⟨?_, ?_, ?_⟩
+  · rw [hcur, hscores]; exact (best_is_argmin mts _).1
+  · have : (HState.init mts).scores.length = 0 := rfl
+    change st.scores.length ≤ _ at hbud
+    omega
+  · intro b hb
+    rw [hbest] at hb
+    obtain ⟨id, h1, _, h3, h4, h5⟩ := winner_costs_true statsOf mts _
+      (fun e he => (hgood e he).1) (fun e he => (hgood e he).2) b hb
+    exact ⟨id, by rw [htree]; exact h1, h3, h4, h5⟩
+
 /-- an objective that does not fill the figures (as `LimitObjective.__call__` on the unrepaired
     tree), no post-processing configured -/
 def limitLike : Objective Nat := { ensures := false, value := fun _ => some (some 4) }
